@@ -300,7 +300,12 @@ def make_ic(case):
         for u, s in zip(gc.order, case['ic']):
             if s != dflt: d[u] = lab(s)
         return d
-    return {u: lab(s) for u, s in zip(gc.order, case['ic']) if s is not None}
+    d = {u: lab(s) for u, s in zip(gc.order, case['ic']) if s is not None}
+    if len(gc.order) % 2 == 0 and None not in case['ic']:
+        # an IC written for a larger population: entries for nodes that are not in G (ignored: only G's nodes are simulated and counted)
+        for j_, s in enumerate(case['ic'][:2]):
+            d[('not-in-G', j_)] = lab(s)
+    return d
 
 
 def call_impl(EoN, case, fns, full=None):
